@@ -170,6 +170,7 @@ type c35Expect struct {
 	partial []byte // bytes of a final DATA payload cut by FIN (a prefix may be delivered)
 	end     string // "eof", "frame-error" (required), "open"
 	tag     string // which frame was cut (signature suffix)
+	skipped bool   // an unknown frame precedes the message head
 	why     string
 }
 
@@ -189,9 +190,11 @@ func c35IsH2Reserved(t uint64) bool { return t == 2 || t == 6 || t == 8 || t == 
 func c35RefStream(b []byte, headSection []byte) []c35Expect {
 	var out []c35Expect
 	var walk func(pos int, inBody bool, body []byte)
+	skipped := false
 	walk = func(pos int, inBody bool, body []byte) {
 		emit := func(e c35Expect) {
 			e.body = append([]byte(nil), body...)
+			e.skipped = skipped
 			out = append(out, e)
 		}
 		for {
@@ -237,6 +240,9 @@ func c35RefStream(b []byte, headSection []byte) []c35Expect {
 			switch {
 			case !c35IsKnown(t) && !c35IsH2Reserved(t):
 				pos = next // skipped, wherever it appears
+				if !inBody {
+					skipped = true
+				}
 			case c35IsH2Reserved(t):
 				// Either skipped like an unknown type or refused (RFC 9114
 				// §7.2.8): the property does not say.
@@ -579,8 +585,11 @@ func c35EndClass(o *c35Obs) string {
 // ("", "") on a match, else (signature suffix, description).
 func c35Match(e c35Expect, o *c35Obs) (string, string) {
 	if !e.msgOpen && e.msg != o.msg {
-		if e.msg {
+		if e.msg && e.skipped {
 			return "skip/message-head-rejected", "the message head must be accepted (unknown frames in front of it are to be skipped) but it was not"
+		}
+		if e.msg {
+			return "body/valid-message-head-rejected", "the message head must be accepted but it was not"
 		}
 		return "truncated/message-accepted", "the message head must not be accepted"
 	}
